@@ -1,10 +1,132 @@
-(* Props/C04.v -- Generic textual form round-trips every valid IR: the theorems. *)
-From Coq Require Import ZArith List Bool.
-From XV Require Import C04.Model C04.ProofsStr C04.ProofsGhost C04.ProofsPrint C04.ProofsParse C04.ProofsRound.
-Import ListNotations.
+(* Props/C04.v -- Generic textual form round-trips every valid IR: the theorems.
 
+   Vocabulary (coq/C04/Model.v, ProofsGhost.v, ProofsTree.v):
+     skel                IR skeleton: operations (results, operands, successors, regions), blocks (label,
+                         arguments, operations); leaves are object identities with their name hints;
+                         attributes, properties, types are opaque
+     sched ir            the sequence of name-relevant effects of printing / parsing ir
+     print_names c ir    the names the printer writes (as a tree over names)
+     parse_names c t     what the parser makes of such a tree: Ok ir' or the ParseError class
+     hints_ok c l        every (non-empty) hint is a valid ASCII name without trailing _<digits> group;
+                         for the switches of c that are off (pinned behaviour) also: no block hint of the
+                         form bb<digits>, no hint on an entry block whose label is omitted
+     well_scoped c ir    SSA visibility by region nesting, every value defined exactly once, everything first
+                         printed inside an IsolatedFromAbove operation is defined inside it, successors are
+                         labelled blocks of the enclosing region (ProofsGhost.v)
+     c : cfg             which of the four proposed repairs the code contains (pinned_cfg: none,
+                         repaired_cfg: all); the theorems hold for every configuration. *)
+From Coq Require Import ZArith List Bool.
+From XV Require Import C07.Regex C04.Model C04.ProofsStr C04.ProofsGhost C04.ProofsPrint C04.ProofsParse
+  C04.ProofsRound C04.ProofsTree C04.ProofsLex C04.ProofsWit Gen.C04_current.
+Import ListNotations.
+Local Open Scope Z_scope.
+
+(* At every moment of printing, the names of the values first printed in the scopes that are still
+   open (enter_scope without exit_scope) are pairwise distinct. *)
 Theorem C04_names_unique : forall c l pre post g1,
   hints_ok c l -> l = pre ++ post -> ws_run c pre g0 = Some g1 ->
   NoDup (map (name_of (runP c l pst0)) (active g1)).
 Proof. exact names_unique_values. Qed.
 Print Assumptions C04_names_unique.
+
+(* The labels of the blocks of one region are pairwise distinct. *)
+Theorem C04_block_labels_unique : forall c l pre ls ep post g1 g2,
+  hints_ok c l -> l = pre ++ Arbegin ls ep :: post ->
+  ws_run c pre g0 = Some g1 -> ws_step c (Arbegin ls ep) g1 = Some g2 ->
+  NoDup (map (bname_of (runP c l pst0)) (map fst ls)).
+Proof. exact names_unique_blocks. Qed.
+Print Assumptions C04_block_labels_unique.
+
+(* Printing and parsing yields the same skeleton over new object identities, every hint being the one
+   the printer acted on, and the parsed skeleton prints the same names. *)
+Theorem C04_roundtrip : forall c ir,
+  hints_ok c (sched ir) -> well_scoped c ir = true ->
+  exists ir', parse_names c (print_names c ir) = Ok ir' /\ skel_iso c ir ir' /\
+              print_names c ir' = print_names c ir.
+Proof. exact roundtrip. Qed.
+Print Assumptions C04_roundtrip.
+
+(* For the repaired configuration the hint hypothesis is "the hints are hints the API stores". *)
+Theorem C04_roundtrip_repaired : forall ir,
+  hints_stored repaired_cfg (sched ir) -> well_scoped repaired_cfg ir = true ->
+  exists ir', parse_names repaired_cfg (print_names repaired_cfg ir) = Ok ir' /\ skel_iso repaired_cfg ir ir' /\
+              print_names repaired_cfg ir' = print_names repaired_cfg ir.
+Proof. exact roundtrip_repaired. Qed.
+Print Assumptions C04_roundtrip_repaired.
+
+(* A copy over other object identities (a clone) prints the same names; no hypothesis on the IR. *)
+Theorem C04_deterministic : forall c ir fv fb,
+  (forall x y, fv x = fv y -> x = y) -> (forall x y, fb x = fb y -> x = y) ->
+  print_names c (tmapP (fun x : Z * hint => (fv (fst x), snd x)) (fun x => (fv (fst x), snd x))
+                       (fun x => (fv (fst x), snd x)) fb (fun _ (l : Z * hint) => (fb (fst l), snd l)) ir)
+  = print_names c ir.
+Proof. exact deterministic. Qed.
+Print Assumptions C04_deterministic.
+
+(* A name accepted by a name pattern that passes `name_check` is read as one token by a lexer pattern
+   that passes `lexer_check` (whatever follows it, as long as it is not an identifier character). *)
+Theorem C04_hint_lexable : forall U rn rl s rest,
+  name_check rn = true -> lexer_check rl = true ->
+  outc (bt_fullmatch U rn s) = MSome [] ->
+  (rest = [] \/ exists y r', rest = y :: r' /\ id_cont y = false) ->
+  lexable s = true /\ outc (bt_match U rl (s ++ rest)) = MSome rest.
+Proof. exact hint_lexable. Qed.
+Print Assumptions C04_hint_lexable.
+
+(* the lexer pattern of the current source passes; the proposed name pattern (re.ASCII) passes *)
+Theorem C04_hint_lexable_repaired : forall U s rest,
+  outc (bt_fullmatch U rep_r_name s) = MSome [] ->
+  (rest = [] \/ exists y r', rest = y :: r' /\ id_cont y = false) ->
+  lexable s = true /\ outc (bt_match U cur_r_suffix_id (s ++ rest)) = MSome rest.
+Proof. exact hint_lexable_repaired. Qed.
+Print Assumptions C04_hint_lexable_repaired.
+
+(* ---- the pinned tree refutes the unconditional statements ---- *)
+(* hints a, a, "a_1_2" (stored a_1): names %a, %a_1, %a_1; the text does not parse *)
+Theorem C04_names_unique_refuted : exists ir,
+  hints_stored pinned_cfg (sched ir) /\ well_scoped pinned_cfg ir = true /\
+  ~ NoDup (printed pinned_cfg ir) /\
+  parse_names pinned_cfg (print_names pinned_cfg ir) = Err EAlreadyDefined.
+Proof. exact names_unique_refuted. Qed.
+Print Assumptions C04_names_unique_refuted.
+
+Theorem C04_default_block_hint_refuted :
+  well_scoped pinned_cfg (w2 pinned_cfg) = true /\
+  parse_names pinned_cfg (print_names pinned_cfg (w2 pinned_cfg)) = Err ERedeclared.
+Proof. exact w2_refutes. Qed.
+Print Assumptions C04_default_block_hint_refuted.
+
+Theorem C04_entry_hint_refuted :
+  well_scoped pinned_cfg (w4 pinned_cfg) = true /\
+  printed pinned_cfg (w4 pinned_cfg) = [[97; 95; 49]; [97; 95; 49]] /\
+  reprinted pinned_cfg (w4 pinned_cfg) = Some [[97]; [97]].
+Proof. exact w4_refutes. Qed.
+Print Assumptions C04_entry_hint_refuted.
+
+Theorem C04_iso_operand_refuted :
+  well_scoped repaired_cfg w5 = true /\ printed pinned_cfg w5 = [[48]; [48]; [48]] /\
+  parse_names pinned_cfg (print_names pinned_cfg w5) = Err EAlreadyDefined /\ well_scoped pinned_cfg w5 = false.
+Proof. exact w5_refutes. Qed.
+Print Assumptions C04_iso_operand_refuted.
+
+Theorem C04_hint_lexable_refuted :
+  outc (bt_fullmatch cpyU pin_r_name [97; 233]) = MSome [] /\ lexable [97; 233] = false /\
+  outc (bt_match cpyU cur_r_suffix_id ([97; 233] ++ [32])) = MSome [233; 32].
+Proof. exact pin_name_refutes. Qed.
+Print Assumptions C04_hint_lexable_refuted.
+
+(* ---- with the repairs the witnesses round-trip ---- *)
+Example C04_witnesses_repaired :
+  reprinted repaired_cfg (w1 repaired_cfg) = Some (printed repaired_cfg (w1 repaired_cfg)) /\
+  reprinted repaired_cfg (w2 repaired_cfg) = Some (printed repaired_cfg (w2 repaired_cfg)) /\
+  reprinted repaired_cfg (w4 repaired_cfg) = Some (printed repaired_cfg (w4 repaired_cfg)) /\
+  reprinted repaired_cfg w5 = Some (printed repaired_cfg w5).
+Proof. vm_compute. repeat split. Qed.
+
+(* ---- the hypotheses of C04_roundtrip are satisfiable by a non-trivial skeleton (pinned tree) ---- *)
+Example C04_hypotheses_satisfiable :
+  hints_ok pinned_cfg (sched demo) /\ well_scoped pinned_cfg demo = true /\
+  printed pinned_cfg demo =
+    [[97]; [97; 95; 49]; [97; 95; 49]; [48]; [97]; [98; 98; 48]; [120]; [120]; [116; 104; 101; 110];
+     [116; 104; 101; 110]; [120; 95; 49]; [98; 98; 48]].
+Proof. split; [exact demo_hints_ok|split; [exact demo_ws|exact demo_prints]]. Qed.
